@@ -237,17 +237,17 @@ func accessTLS(tr *tracer.T, cases []map[string]any) {
 	caFile, _ := writePEM(dir, "ca", ca)
 	srvCert, srvKey := writePEM(dir, "server", server)
 	clients := map[string][]*certKey{
-		"selfsigned_rightcn":   {makeCert(allowed, nil, false, nil)},
-		"otherca_rightcn":      {makeCert(allowed, nil, false, otherCA)},
-		"ca_rightcn":           {makeCert(allowed, nil, false, ca)},
-		"ca_wrongcn":           {makeCert("someone.else", nil, false, ca)},
-		"ca_emptycn":           {makeCert("", nil, false, ca)},
-		"ca_cn_prefix":         {makeCert(allowed[:len(allowed)-1], nil, false, ca)},
-		"ca_cn_case":           {makeCert(swapCase(allowed), nil, false, ca)},
-		"ca_rightsan":          {makeCert("someone.else", []string{allowed}, false, ca)},
-		"ca_wrongsan":          {makeCert("someone.else", []string{"other.example"}, false, ca)},
-		"ca_rightcn_wrongsan":  {makeCert(allowed, []string{"other.example"}, false, ca)},
-		"ca_wrongcn_rightsan":  {makeCert("wrong.cn", []string{allowed}, false, ca)},
+		"selfsigned_rightcn":  {makeCert(allowed, nil, false, nil)},
+		"otherca_rightcn":     {makeCert(allowed, nil, false, otherCA)},
+		"ca_rightcn":          {makeCert(allowed, nil, false, ca)},
+		"ca_wrongcn":          {makeCert("someone.else", nil, false, ca)},
+		"ca_emptycn":          {makeCert("", nil, false, ca)},
+		"ca_cn_prefix":        {makeCert(allowed[:len(allowed)-1], nil, false, ca)},
+		"ca_cn_case":          {makeCert(swapCase(allowed), nil, false, ca)},
+		"ca_rightsan":         {makeCert("someone.else", []string{allowed}, false, ca)},
+		"ca_wrongsan":         {makeCert("someone.else", []string{"other.example"}, false, ca)},
+		"ca_rightcn_wrongsan": {makeCert(allowed, []string{"other.example"}, false, ca)},
+		"ca_wrongcn_rightsan": {makeCert("wrong.cn", []string{allowed}, false, ca)},
 	}
 	clients["ca_wrong_via_intermediate_named_right"] = []*certKey{makeCert("someone.else", []string{"other.example"}, false, inter), inter}
 	pool := x509.NewCertPool()
